@@ -42,6 +42,9 @@ func runC10(c *Ctx) {
 	// shared with C03: the tokens a match is read from exist - the guard that a scored candidate has at least one token
 	// left dominates the indexing of the input's tokens (R03.2, R03.3)
 	borrowRules(c, []string{"R03.2", "R03.3"}, runC03)
+	// shared with C08: the tokenizer fails only when its reader fails (R08.7) - Normalize panics on a tokenizer error and
+	// AddContent dereferences the nil document
+	borrowRules(c, []string{"R08.7"}, runC08)
 	c.R.Assume("non-constant index arithmetic (filter[off], hits[idx], diffs[start:end], Tokens[startIndex+startOffset]) is outside what this rule decides")
 	fns := v2LibFuncs(p)
 	c.R.Count("R10.1:functions", len(fns))
